@@ -123,13 +123,27 @@ def run(run):
                               ' the documented packing', {
                                   'pv': pv, 'triple': (x, y, z), 'got': got,
                                   'expected': exp})
+            # (equal *and* of the same kind: integers, which can be encoded
+            # again - a float -5.0 compares equal to -5 but is not a block
+            # coordinate)
+            reenc = None
+            if all(type(c) is int for c in back):
+                s2 = Sink()
+                try:
+                    Position.send_with_context(back, s2, ctx)
+                    reenc = s2.value()
+                except Exception as e:
+                    reenc = repr(e)
             if tuple(back) != (x, y, z) or st.pos != 8 or \
-                    type(back) is not Position:
+                    type(back) is not Position or reenc != exp:
                 bad += 1
                 run.violation('position/decode/' + layout, 'decoded triple '
                               'differs / cursor off', {
                                   'pv': pv, 'triple': (x, y, z),
-                                  'back': tuple(back), 'pos': st.pos})
+                                  'back': tuple(back), 'pos': st.pos,
+                                  'coordinate_types': [type(c).__name__
+                                                       for c in back],
+                                  're_encoded': reenc})
             if bad > 5:
                 break
         run.bulk(len(mine), len(mine))
@@ -165,8 +179,18 @@ def run(run):
                 rw.pack_block_record_old(x, y, z, s)
             sink = Sink()
             try:
-                MBC.Record.send_with_context(
-                    MBC.Record(x=x, y=y, z=z, block_state_id=s), sink, ctx)
+                # the record is filled field by field or through its
+                # 'position' alias (tuple or Vector) - same record either way
+                how = (x + y + z + (s & 7)) % 3
+                if how == 0:
+                    rec_ = MBC.Record(x=x, y=y, z=z, block_state_id=s)
+                elif how == 1:
+                    rec_ = MBC.Record(block_state_id=s)
+                    rec_.position = (x, y, z)
+                else:
+                    from minecraft.networking.types import Vector as _V
+                    rec_ = MBC.Record(position=_V(x, y, z), block_state_id=s)
+                MBC.Record.send_with_context(rec_, sink, ctx)
                 got = sink.value()
                 st = Stream(exp + b'\xa5')
                 back = MBC.Record.read_with_context(st, ctx)
